@@ -100,9 +100,10 @@ Proof.
   - now apply allcells_cont_all.
   - now apply allcells_filter_rows, allcells_redirect.
   - now apply allcells_filter_rows.
-  - destruct cascade; repeat apply allcells_filter_rows; auto.
-  - now apply allcells_filter_rows.
-  - now apply allcells_filter_rows.
+  - unfold drop_elems_full, drop_pipe_refs, drop_elems, drop_labels.
+    destruct cascade; repeat apply allcells_filter_rows; auto.
+  - unfold drop_elems_full, drop_pipe_refs, drop_elems. repeat apply allcells_filter_rows; auto.
+  - unfold drop_pipe_refs, drop_elems, drop_labels. repeat apply allcells_filter_rows; auto.
 Qed.
 
 Lemma allcells_exec Q s ops n : allcells Q n -> allcells Q (exec s ops n).
@@ -201,6 +202,14 @@ Proof.
   simpl in *. apply filter_In in Hr. apply (H t r c); tauto.
 Qed.
 
+Lemma drop_elems_full_agree sel1 sel2 selp1 selp2 js n : agree_in sel1 sel2 n -> agree_in selp1 selp2 n ->
+  drop_elems_full sel1 selp1 js n = drop_elems_full sel2 selp2 js n.
+Proof.
+  intros H HP. unfold drop_elems_full, drop_pipe_refs.
+  rewrite (hit_labels_agree _ _ js n "pipe" H), (drop_elems_agree _ _ js n H).
+  apply drop_elems_agree. unfold drop_elems. now apply agree_in_filter_rows.
+Qed.
+
 Definition sems_agree (s1 s2 : sem) (cs : colset) (n : net) : Prop :=
   agree (selJ s1 cs) (selJ s2 cs) n /\ agree (selP s1) (selP s2) n.
 
@@ -227,9 +236,9 @@ Proof.
   - now apply cont_all_agree.
   - f_equal. apply redirect_agree. now apply agree_agree_in.
   - apply select_agree. now apply agree_agree_in.
-  - destruct cascade; auto. apply drop_elems_agree. apply agree_in_filter_rows. now apply agree_agree_in.
-  - apply drop_elems_agree. now apply agree_agree_in.
-  - reflexivity.
+  - destruct cascade; auto. apply drop_elems_full_agree; apply agree_in_filter_rows; now apply agree_agree_in.
+  - apply drop_elems_full_agree; now apply agree_agree_in.
+  - f_equal. unfold drop_pipe_refs. apply drop_elems_agree. now apply agree_agree_in.
 Qed.
 
 (* the hypotheses under which today's code meets the specification: the tuple set is exactly the set
@@ -481,9 +490,10 @@ Proof.
   - now apply plain_cont_all.
   - now apply plain_filter_rows, plain_redirect.
   - now apply plain_filter_rows.
-  - destruct cascade; repeat apply plain_filter_rows; auto.
-  - now apply plain_filter_rows.
-  - now apply plain_filter_rows.
+  - unfold drop_elems_full, drop_pipe_refs, drop_elems, drop_labels.
+    destruct cascade; repeat apply plain_filter_rows; auto.
+  - unfold drop_elems_full, drop_pipe_refs, drop_elems. repeat apply plain_filter_rows; auto.
+  - unfold drop_pipe_refs, drop_elems, drop_labels. repeat apply plain_filter_rows; auto.
 Qed.
 
 Lemma junction_special : special "junction" = true. Proof. reflexivity. Qed.
@@ -655,9 +665,13 @@ Proof.
   - now apply cont_all_RI_J.
   - now apply fuse_RI_J.
   - now apply select_RI_J.
-  - subst cascade. now apply drop_junctions_RI_J.
-  - now apply drop_elems_RI_J.
-  - now apply drop_pipes_RI_J.
+  - subst cascade. unfold drop_elems_full, drop_pipe_refs. apply drop_elems_RI_J.
+    + unfold drop_elems, drop_labels. now repeat apply plain_filter_rows.
+    + now apply drop_junctions_RI_J.
+  - unfold drop_elems_full, drop_pipe_refs. apply drop_elems_RI_J.
+    + unfold drop_elems. now apply plain_filter_rows.
+    + now apply drop_elems_RI_J.
+  - apply drop_pipes_RI_J. unfold drop_pipe_refs. now apply drop_elems_RI_J.
 Qed.
 
 Fixpoint guards (s : sem) (ops : list op) (n : net) : Prop :=
@@ -696,14 +710,10 @@ Definition removes_only (o : op) : bool :=
 
 Lemma frame_rows_unchanged s o n tn r : removes_only o = true -> In r (rows_of tn (step s o n)) -> In r (rows_of tn n).
 Proof.
-  intros Hr H. destruct o; try discriminate; simpl in H.
-  - unfold select in H. rewrite rows_of_filter_rows in H. apply filter_In in H. tauto.
-  - destruct cascade.
-    + unfold drop_elems, drop_labels in H. rewrite !rows_of_filter_rows in H.
-      apply filter_In in H. destruct H as [H _]. apply filter_In in H. tauto.
-    + unfold drop_labels in H. rewrite rows_of_filter_rows in H. apply filter_In in H. tauto.
-  - unfold drop_elems in H. rewrite rows_of_filter_rows in H. apply filter_In in H. tauto.
-  - unfold drop_labels in H. rewrite rows_of_filter_rows in H. apply filter_In in H. tauto.
+  intros Hr H. destruct o; try discriminate; simpl in H;
+    try destruct cascade;
+    unfold select, drop_elems_full, drop_pipe_refs, drop_elems, drop_labels in H;
+    repeat (rewrite rows_of_filter_rows in H; apply filter_In in H; destruct H as [H _]); exact H.
 Qed.
 
 (* an element row that references none of the dropped junctions (through a column the operation knows)
@@ -719,14 +729,19 @@ Lemma drop_junctions_keeps_untouched s cs js n tn r :
   parent tn = None -> fam "junction" tn = false ->
   In r (rows_of tn n) ->
   (forall c, In c (r_cells r) -> selJ s cs tn (c_col c) (c_kind c) = true -> ~ In (c_val c) js) ->
+  (forall c, In c (r_cells r) -> selP s tn (c_col c) (c_kind c) = false) ->
   In r (rows_of tn (step s (DropJ cs js true) n)).
 Proof.
-  intros Hpar Hfam Hr Hun. simpl. unfold drop_elems, drop_labels. rewrite !rows_of_filter_rows.
-  apply filter_In. split.
-  - apply filter_In. split; auto. now rewrite Hfam.
+  intros Hpar Hfam Hr Hun HnoP. simpl. unfold drop_elems_full, drop_pipe_refs, drop_elems, drop_labels.
+  rewrite !rows_of_filter_rows. apply filter_In. split.
+  - apply filter_In. split.
+    + apply filter_In. split; auto. now rewrite Hfam.
+    + rewrite Hpar. rewrite andb_true_r. apply negb_true_iff.
+      destruct (hit (on_cell (selJ s cs)) js tn r) eqn:Hh; auto.
+      apply hit_true_cell in Hh. destruct Hh as [c [Hc [Hs Hin]]]. exfalso. exact (Hun c Hc Hs Hin).
   - rewrite Hpar. rewrite andb_true_r. apply negb_true_iff.
-    destruct (hit (on_cell (selJ s cs)) js tn r) eqn:Hh; auto.
-    apply hit_true_cell in Hh. destruct Hh as [c [Hc [Hs Hin]]]. exfalso. exact (Hun c Hc Hs Hin).
+    match goal with |- hit ?f ?l tn r = false => destruct (hit f l tn r) eqn:Hh; auto end.
+    apply hit_true_cell in Hh. destruct Hh as [c [Hc [Hs _]]]. unfold on_cell in Hs. rewrite (HnoP c Hc) in Hs. discriminate.
 Qed.
 
 (* ------------------------------------------------------------------ fuse: what changes, cell by cell *)
@@ -814,4 +829,118 @@ Lemma exact_b_exact cs n : exact_b cs n = true -> exact cs n.
 Proof.
   intros H tn r c Hr Hc. pose proof (cells_ok_true _ _ H tn r c Hr Hc) as E. apply eqb_prop in E.
   rewrite E. unfold is_kj. now destruct (c_kind c).
+Qed.
+
+(* ------------------------------------------------------------------ no dangling pipe reference after the
+   dropping operations (since drop_pipes cascades to the attached valves) *)
+Definition coversP (f : selector) (n : net) : Prop := allcells (fun tn col k => k = KP -> f tn col k = true) n.
+Definition pipe_unhit (f : selector) (n : net) : Prop := allcells (fun tn col k => tn = "pipe" -> f tn col k = false) n.
+
+Lemma hit_labels_rows_of sel js n e : hit_labels sel js n e = map r_label (filter (hit sel js e) (rows_of e n)).
+Proof.
+  induction n as [|t n IH]; simpl; auto. rewrite filter_app, map_app, <- IH. f_equal.
+  destruct (String.eqb (t_name t) e) eqn:E; simpl; auto. apply String.eqb_eq in E. now subst.
+Qed.
+
+Lemma hit_in_labels sel js n e r0 : In r0 (rows_of e n) -> hit sel js e r0 = true -> In (r_label r0) (hit_labels sel js n e).
+Proof. intros H1 H2. rewrite hit_labels_rows_of. apply in_map. apply filter_In. auto. Qed.
+
+Lemma unhit_row f ps n r0 : pipe_unhit f n -> In r0 (rows_of "pipe" n) -> hit (on_cell f) ps "pipe" r0 = false.
+Proof.
+  intros H Hr. unfold hit. destruct (existsb _ (r_cells r0)) eqn:E; auto.
+  apply existsb_exists in E. destruct E as [c [Hc B]]. apply andb_true_iff in B. destruct B as [B _].
+  unfold on_cell in B. rewrite (H "pipe" r0 c Hr Hc eq_refl) in B. discriminate.
+Qed.
+
+Lemma filter_RI_P k n : RI_P n ->
+  (forall tn r c r0, In r (rows_of tn n) -> k tn r = true -> In c (r_cells r) -> c_kind c = KP ->
+      In r0 (rows_of "pipe" n) -> r_label r0 = c_val c -> k "pipe" r0 = true) ->
+  RI_P (filter_rows k n).
+Proof.
+  intros H Hk tn r c Hr Hc Hkd. rewrite rows_of_filter_rows in Hr. apply filter_In in Hr. destruct Hr as [Hr Hkr].
+  pose proof (H tn r c Hr Hc Hkd) as Hin. rewrite labels_of_rows_of in *. apply in_map_iff in Hin.
+  destruct Hin as [r0 [E Hr0]]. rewrite rows_of_filter_rows. apply in_map_iff. exists r0. split; [exact E|].
+  apply filter_In. split; [exact Hr0|]. exact (Hk tn r c r0 Hr Hkr Hc Hkd Hr0 E).
+Qed.
+
+(* dropping the rows that reference the pipes ps, then the pipes ps themselves *)
+Lemma drop_refs_then_pipes_RI_P f ps n : coversP f n -> pipe_unhit f n -> RI_P n ->
+  RI_P (drop_labels (fam "pipe") ps (drop_pipe_refs (on_cell f) ps n)).
+Proof.
+  intros Hc Hu H tn r c Hr Hcc Hkd. unfold drop_labels, drop_pipe_refs, drop_elems in *.
+  rewrite !rows_of_filter_rows in Hr. apply filter_In in Hr. destruct Hr as [Hr _].
+  apply filter_In in Hr. destruct Hr as [Hr Hk]. apply andb_true_iff in Hk. destruct Hk as [Hnh _].
+  apply negb_true_iff in Hnh.
+  assert (Hsel : on_cell f tn c = true) by (unfold on_cell; apply (Hc tn r c Hr Hcc Hkd)).
+  pose proof (hit_false_cell _ _ _ _ _ Hnh Hcc Hsel) as Hnot.
+  pose proof (H tn r c Hr Hcc Hkd) as Hin. rewrite labels_of_rows_of in *. apply in_map_iff in Hin.
+  destruct Hin as [r0 [E Hr0]]. rewrite !rows_of_filter_rows. apply in_map_iff. exists r0. split; auto.
+  apply filter_In. split.
+  - apply filter_In. split; auto. rewrite (unhit_row f ps n r0 Hu Hr0). reflexivity.
+  - rewrite E, Hnot. now rewrite andb_false_r.
+Qed.
+
+(* drop_elements_at_junctions: rows at the junctions (pipes among them), then the rows that reference those pipes *)
+Lemma drop_elems_full_RI_P sel f js n : coversP f n -> pipe_unhit f n -> RI_P n ->
+  RI_P (drop_elems_full sel (on_cell f) js n).
+Proof.
+  intros Hc Hu H tn r c Hr Hcc Hkd. unfold drop_elems_full, drop_pipe_refs in *.
+  set (dp := hit_labels sel js n "pipe") in *. unfold drop_elems in Hr at 1.
+  rewrite rows_of_filter_rows in Hr. apply filter_In in Hr. destruct Hr as [Hr Hk2].
+  apply andb_true_iff in Hk2. destruct Hk2 as [Hnh2 _]. apply negb_true_iff in Hnh2.
+  unfold drop_elems in Hr. rewrite rows_of_filter_rows in Hr. apply filter_In in Hr. destruct Hr as [Hr Hk1].
+  assert (Hsel : on_cell f tn c = true) by (unfold on_cell; apply (Hc tn r c Hr Hcc Hkd)).
+  pose proof (hit_false_cell _ _ _ _ _ Hnh2 Hcc Hsel) as Hnot.
+  pose proof (H tn r c Hr Hcc Hkd) as Hin. rewrite labels_of_rows_of in *. apply in_map_iff in Hin.
+  destruct Hin as [r0 [E Hr0]].
+  unfold drop_elems. rewrite !rows_of_filter_rows. apply in_map_iff. exists r0. split; auto.
+  apply filter_In. split.
+  - apply filter_In. split; auto.
+    destruct (hit sel js "pipe" r0) eqn:Hh; [|reflexivity].
+    exfalso. apply memz_false in Hnot. apply Hnot. rewrite <- E. unfold dp. now apply hit_in_labels.
+  - rewrite (unhit_row f dp n r0 Hu Hr0). reflexivity.
+Qed.
+
+Lemma drop_junction_rows_RI_P js n : RI_P n -> RI_P (drop_labels (fam "junction") js n).
+Proof. intros H. apply filter_RI_P; auto. Qed.
+
+Definition drop_op (o : op) : bool :=
+  match o with DropJ _ _ true | DropElems _ _ | DropP _ => true | _ => false end.
+
+Lemma step_drop_RI_P s o n : drop_op o = true -> coversP (selP s) n -> pipe_unhit (selP s) n -> RI_P n -> RI_P (step s o n).
+Proof.
+  intros Hd Hc Hu H. destruct o; try discriminate; simpl.
+  - destruct cascade; [|discriminate]. apply drop_elems_full_RI_P.
+    + unfold coversP, drop_labels. now apply allcells_filter_rows.
+    + unfold pipe_unhit, drop_labels. now apply allcells_filter_rows.
+    + now apply drop_junction_rows_RI_P.
+  - now apply drop_elems_full_RI_P.
+  - now apply drop_refs_then_pipes_RI_P.
+Qed.
+
+Lemma pexact_model_coversP n : pexact n -> coversP (selP model_sem) n /\ pipe_unhit (selP model_sem) n.
+Proof.
+  intros H. split; intros tn r c Hr Hc; simpl.
+  - intros K. specialize (H tn r c Hr Hc). simpl in H. rewrite K in H. destruct (H eq_refl) as [-> ->]. now rewrite K.
+  - intros ->. reflexivity.
+Qed.
+
+Fixpoint all_drops (ops : list op) : bool :=
+  match ops with [] => true | o :: r => drop_op o && all_drops r end.
+
+Lemma exec_drops_RI ops n : all_drops ops = true -> plain n -> pexact n ->
+  (forall o, In o ops -> cover_hyp model_sem o n) -> RI n -> RI (exec model_sem ops n).
+Proof.
+  revert n. induction ops as [|o r IH]; intros n Ha Hp Hx Hc [HJ HP]; simpl; [split; auto|].
+  simpl in Ha. apply andb_true_iff in Ha. destruct Ha as [Hd Ha].
+  apply IH; auto.
+  - now apply plain_step.
+  - unfold pexact. now apply allcells_step.
+  - intros o' Ho'. apply cover_hyp_step. apply Hc. now right.
+  - split.
+    + apply step_RI_J; auto.
+      * exact model_sem_sane.
+      * apply Hc. now left.
+      * destruct o; try discriminate; simpl; auto. now destruct cascade.
+    + destruct (pexact_model_coversP n Hx) as [C U]. now apply step_drop_RI_P.
 Qed.
